@@ -193,6 +193,11 @@ class uamiv(PseudoNetCDFFile):
         self.time_step = timediff(
             (start_date, start_time), (end_date, end_time))
         mystep = (2400, 24)[int(self.time_step % 2)]
+        # use the detected length of day for the step itself (a first step
+        # that crosses midnight) and for all later time arithmetic
+        self.time_step = timediff(
+            (start_date, start_time), (end_date, end_time), mystep)
+        self._eod = mystep
         self.time_step_count = int(timediff((self.start_date, self.start_time),
                                             (self.end_date, self.end_time),
                                             mystep) // self.time_step)
@@ -219,7 +224,7 @@ class uamiv(PseudoNetCDFFile):
         """
         d, t = dt
         nsteps = int(
-            timediff((self.start_date, self.start_time), (d, t)) /
+            timediff((self.start_date, self.start_time), (d, t), self._eod) /
             self.time_step)
         nspec = self.__spcrecords(self.nspec + 1)
         return nsteps * nspec
